@@ -515,8 +515,12 @@ class IPRoutePrefix(EVPN):
             # ESI type 0: one type octet and a 9-octet value
             value_hex += b'\x00' + binascii.a2b_hex('%018x' % value['esi'])
         value_hex += struct.pack('!I', value['eth_tag_id'])
-        value_hex += struct.pack('!B', int(value['prefix'].split('/')[1]))
-        value_hex += netaddr.IPAddress(value['prefix'].split('/')[0]).packed
+        ip = netaddr.IPAddress(value['prefix'].split('/')[0])
+        masklen = int(value['prefix'].split('/')[1])
+        if not 0 <= masklen <= (32 if ip.version == 4 else 128):
+            raise ValueError('IP prefix length %s does not fit an IPv%s address' % (masklen, ip.version))
+        value_hex += struct.pack('!B', masklen)
+        value_hex += ip.packed
         value_hex += netaddr.IPAddress(value['gateway']).packed
         value_hex += cls.construct_mpls_label_stack(value['label'])
         return value_hex
